@@ -401,12 +401,14 @@ Section Inv.
       + apply in_map_iff in Hl. destruct Hl as [j [Hj Hjs]]. apply spawn_bound in Hjs. apply H4 in Hi. lia.
   Qed.
 
-  Lemma mode_replay_in live exp t : mode_of live exp = MReplay t -> In t live /\ exp = Some (fst t).
+  Lemma mode_replay_in live exp t :
+    mode_of live exp = MReplay t -> In t live /\ exp = Some (fst t) /\ find_by_key live (fst t) = Some t.
   Proof.
     unfold mode_of. destruct live as [|x l]; [discriminate|].
     destruct exp as [k|]; [|discriminate].
     destruct (find_by_key (x :: l) k) as [t'|] eqn:F; [|discriminate].
-    intro H. inversion H; subst. destruct (find_by_key_some _ _ _ F) as [Hi Hk]. split; [assumption|now rewrite Hk].
+    intro H. inversion H; subst. destruct (find_by_key_some _ _ _ F) as [Hi Hk].
+    split; [assumption|]. split; [now rewrite Hk|]. now apply find_by_key_refind with (k := k).
   Qed.
 
   Lemma finish_InvT E st pick : InvJ E st -> InvT st -> enabled st pick -> InvT (finish st pick).
@@ -613,4 +615,294 @@ Section Replay.
           destruct J as [|k0 J']; [exact Ho|].
           rewrite firstn_all2 by lia. cbn [crud_purge_ops d_o]. now rewrite Ho.
   Qed.
+
+  Hypothesis d0_wf : rows_enum run d0 J.
+  (* the loop never has two live tasks with the same key (worker slots / pull numbers are unique while live) *)
+  Hypothesis prog_distinct : forall h live nx, sim h = Some (h, live, nx) -> NoDup (map fst live).
+
+  Lemma init_G : G (init run prog d0).
+  Proof.
+    unfold init. apply enter_G; cbn; try reflexivity.
+    - rewrite skipn_nil. cbn. rewrite app_nil_r. exact d0_wf.
+    - now left.
+    - apply firstn_nil.
+  Qed.
+
+  Lemma ops_after_snoc (hist : list (option Z)) r :
+    ops_after (n <=? length hist)%nat hist = ops_after (n <? length (hist ++ [r]))%nat (hist ++ [r]).
+  Proof.
+    rewrite app_length. cbn [length].
+    replace (n <? length hist + 1)%nat with (n <=? length hist)%nat
+      by (destruct (Nat.leb_spec n (length hist)); symmetry; [apply Nat.ltb_lt|apply Nat.ltb_ge]; lia).
+    destruct (Nat.leb_spec n (length hist)) as [Hl|Hl]; [|reflexivity].
+    unfold ops_after. rewrite firstn_app. replace (n - length hist)%nat with 0%nat by lia.
+    cbn [firstn]. now rewrite app_nil_r.
+  Qed.
+
+  Lemma finish_G E st pick :
+    InvJ run d0 E st -> G st -> enabled st pick ->
+    notmo (firstn n (l_hist (finish st pick))) = true ->
+    G (finish st pick).
+  Proof.
+    intros (Hc & He & Hr & Hi & Hk & Hoth & Hm) (G1 & G2 & G3 & G4 & G5 & G6) Hen Hok.
+    rewrite He in G3. inversion G3 as [EE]. clear G3.
+    unfold Journal.finish in *.
+    destruct (resolve_cases run (l_live st) (l_mode st) pick (l_db st) (l_ad st))
+      as [R|[(t & Mt & _ & R)|(fb & u & i & Mf & Pu & Fu & R)]]; rewrite R in *; cbn [option_map] in *.
+    - (* a wait that timed out / returned nothing *)
+      assert (Hge : (n <= length (l_hist st))%nat).
+      { destruct (Nat.leb_spec n (length (l_hist st))) as [|Hlt]; [assumption|exfalso].
+        unfold Journal.enter in Hok. cbv zeta in Hok.
+        destruct (prologue run _ _ (l_db st) (l_ad st)) as [[d1 a1] m] in Hok. cbn [l_hist] in Hok.
+        rewrite firstn_all2 in Hok by (rewrite app_length; cbn; lia).
+        rewrite notmo_app in Hok. cbn in Hok. now rewrite andb_false_r in Hok. }
+      assert (Hsk : skipn n (l_hist st ++ [None]) = skipn n (l_hist st) ++ [None]).
+      { rewrite skipn_app. replace (n - length (l_hist st))%nat with 0%nat by lia. reflexivity. }
+      apply enter_G; try assumption.
+      + rewrite Hsk, keys_of_app. cbn. rewrite app_nil_r. now rewrite <- EE.
+      + right. rewrite Hsk, keys_of_app. cbn. rewrite app_nil_r. now rewrite <- EE.
+      + rewrite keys_of_app. cbn. now rewrite app_nil_r.
+      + rewrite sim_snoc, G1. reflexivity.
+      + rewrite firstn_app. replace (n - length (l_hist st))%nat with 0%nat by lia. cbn [firstn].
+        rewrite app_nil_r, G2. rewrite app_length. cbn [length].
+        rewrite !(firstn_all2 J) by lia. reflexivity.
+      + rewrite G5, app_length. cbn [length].
+        destruct (Nat.leb_spec n (length (l_hist st))); symmetry; [apply Nat.ltb_lt|apply Nat.ltb_ge]; lia.
+      + rewrite G6. apply ops_after_snoc.
+    - (* replay: the expected task is handed over *)
+      rewrite Mt in Hm. symmetry in Hm. apply mode_replay_in in Hm. destruct Hm as (Ht & Hn & Hfind).
+      assert (Hlt : (length (l_hist st) < n)%nat).
+      { destruct (Nat.ltb_spec (length (l_hist st)) n) as [|Hge]; [assumption|exfalso].
+        destruct (fresh_phase _ G2 Hge) as (_ & Hkk).
+        assert (j_idx (a_j (l_ad st)) = length E) by (rewrite Hk, Hkk, EE; reflexivity).
+        assert (nth_error E (j_idx (a_j (l_ad st))) = None) by (apply nth_error_None; lia). congruence. }
+      destruct (replay_phase _ G2 Hlt) as (Hh & Hkk & Hs & k & Hnk).
+      assert (EJ : E = J) by (rewrite EE, Hs; cbn; apply app_nil_r).
+      assert (Hidx : j_idx (a_j (l_ad st)) = length (l_hist st)) by (rewrite Hk, Hkk, firstn_length; lia).
+      rewrite EJ, Hidx, Hnk in Hn. inversion Hn as [Hkt]. clear Hn.
+      assert (Hs' : skipn n (l_hist st ++ [Some (fst t)]) = []) by (apply skipn_all2; rewrite app_length; cbn; lia).
+      apply enter_G; cbn [a_j j_advance j_crud j_entries j_idx a_purged]; try assumption.
+      + rewrite Hs'. cbn. rewrite app_nil_r. now rewrite <- EJ.
+      + right. rewrite Hs'. cbn. rewrite app_nil_r. now rewrite <- EJ.
+      + rewrite keys_of_app, app_length. cbn. lia.
+      + rewrite sim_snoc, G1. cbn. rewrite Hfind. reflexivity.
+      + rewrite firstn_all2 by (rewrite app_length; cbn; lia).
+        rewrite app_length. cbn [length]. rewrite Nat.add_1_r.
+        rewrite (firstn_S_nth _ _ _ Hnk), map_app, <- Hh, Hkt. reflexivity.
+      + rewrite G5, app_length. cbn [length].
+        destruct (Nat.leb_spec n (length (l_hist st))); symmetry; [apply Nat.ltb_lt|apply Nat.ltb_ge]; lia.
+      + rewrite G6. apply ops_after_snoc.
+    - (* fresh: some finished task is recorded and handed over *)
+      assert (Hge : (n <= length (l_hist st))%nat).
+      { destruct (Nat.leb_spec n (length (l_hist st))) as [|Hlt]; [assumption|exfalso].
+        destruct (replay_phase _ G2 Hlt) as (Hh & Hkk & Hs & k & Hnk).
+        assert (EJ : E = J) by (rewrite EE, Hs; cbn; apply app_nil_r).
+        assert (Hidx : j_idx (a_j (l_ad st)) = length (l_hist st)) by (rewrite Hk, Hkk, firstn_length; lia).
+        rewrite EJ, Hidx, Hnk, Mf in Hm. unfold mode_of in Hm.
+        destruct (l_live st) as [|x l]; [discriminate|].
+        destruct (find_by_key (x :: l) k) eqn:F; [discriminate|].
+        exact (replay_find _ _ _ _ _ HR G1 Hh Hnk F). }
+      destruct (find_by_uid_some _ _ _ Fu) as [Hin _].
+      assert (Hfind : find_by_key (l_live st) (fst i) = Some i).
+      { apply find_by_key_self; [|assumption]. exact (prog_distinct _ _ _ G1). }
+      assert (Hsk : skipn n (l_hist st ++ [Some (fst i)]) = skipn n (l_hist st) ++ [Some (fst i)]).
+      { rewrite skipn_app. replace (n - length (l_hist st))%nat with 0%nat by lia. reflexivity. }
+      unfold j_record. rewrite He, Hc. cbn [fst snd].
+      apply enter_G; cbn [a_j j_crud j_entries j_idx a_purged]; try assumption; try reflexivity.
+      + rewrite Hsk, keys_of_app. cbn. rewrite app_assoc, <- EE. now apply insert_enum.
+      + right. rewrite Hsk, keys_of_app. cbn. now rewrite app_assoc, <- EE.
+      + rewrite keys_of_app, app_length. cbn. lia.
+      + rewrite sim_snoc, G1. cbn. rewrite Hfind. reflexivity.
+      + rewrite firstn_app. replace (n - length (l_hist st))%nat with 0%nat by lia. cbn [firstn].
+        rewrite app_nil_r, G2. rewrite app_length. cbn [length].
+        rewrite !(firstn_all2 J) by lia. reflexivity.
+      + rewrite G5, app_length. cbn [length].
+        destruct (Nat.leb_spec n (length (l_hist st))); symmetry; [apply Nat.ltb_lt|apply Nat.ltb_ge]; lia.
+      + cbn [crud_insert d_o]. rewrite G6. apply ops_after_snoc.
+  Qed.
+
+  Lemma enter_hist d a live done hist handed next fb : l_hist (enter d a live done hist handed next fb) = hist.
+  Proof.
+    unfold Journal.enter. cbv zeta. destruct (prologue run _ _ d a) as [[d1 a1] m]. reflexivity.
+  Qed.
+
+  Lemma finish_hist st pick : exists r, l_hist (finish st pick) = l_hist st ++ [r].
+  Proof.
+    unfold Journal.finish. destruct (resolve run _ _ pick _ _) as [[d1 a1] res].
+    rewrite enter_hist. now eexists.
+  Qed.
+
+  Lemma exec_snoc d s e : exec d (s ++ [e]) = step (exec d s) e.
+  Proof. unfold Journal.exec, exec_from. now rewrite fold_left_app. Qed.
+
+  Lemma exec_G : forall s, notmo (firstn n (l_hist (exec d0 s))) = true -> G (exec d0 s).
+  Proof.
+    induction s as [|e s IH] using rev_ind; intro Hok.
+    - exact init_G.
+    - rewrite exec_snoc in *.
+      destruct (exec_from_InvU run prog d0 J s _ (init_InvU run prog d0 J d0_wf)) as [[F HJ] _].
+      fold (exec d0 s) in HJ.
+      destruct (step_cases run prog (exec d0 s) e) as [Hs|[[dn Hs]|[pick [Hen Hs]]]]; rewrite Hs in *.
+      + now apply IH.
+      + apply IH in Hok. exact Hok.
+      + destruct (finish_hist (exec d0 s) pick) as [r Hr].
+        apply (finish_G _ _ _ HJ); try assumption. apply IH.
+        rewrite Hr in Hok. now apply notmo_firstn_prefix in Hok.
+  Qed.
+
+  (* C27 main theorem (one recovered process): for EVERY schedule s (completion order, timer firings, and the point
+     where it stops = the next crash point) of the process recovered from a database whose journal J is replayable,
+     provided no wait timed out before the n-th task was handed over:
+       - the results handed to the control loop start with exactly the recorded keys, in the recorded order;
+       - the journal afterwards is the recorded one followed by the keys handed over after the transition;
+       - the "non-deterministic execution" fallback was never taken;
+       - the orphan purge ran exactly when the n-th result had been handed over, once, with the function id
+         current at that call; before that operation_outputs is untouched;
+       - if no wait timed out at all, the new journal is again replayable (so the argument repeats after
+         the next crash). *)
+  Theorem replay_same_order : forall s,
+    let st := exec d0 s in
+    notmo (firstn n (l_hist st)) = true ->
+    firstn n (l_hist st) = map Some (firstn (length (l_hist st)) J)
+    /\ crud_load run (l_db st) = J ++ keys_of (skipn n (l_hist st))
+    /\ rows_enum run (l_db st) (J ++ keys_of (skipn n (l_hist st)))
+    /\ l_fb st = 0%nat
+    /\ a_purged (l_ad st) = (n <=? length (l_hist st))%nat
+    /\ d_o (l_db st) = ops_after (n <=? length (l_hist st))%nat (l_hist st)
+    /\ (notmo (l_hist st) = true -> replayable (J ++ keys_of (skipn n (l_hist st)))).
+  Proof.
+    intros s st Hok. destruct (exec_G s Hok) as (G1 & G2 & G3 & G4 & G5 & G6). fold st in G1, G2, G3, G4, G5, G6.
+    destruct (exec_from_InvU run prog d0 J s _ (init_InvU run prog d0 J d0_wf)) as [[F HJ] _].
+    fold (exec d0 s) in HJ. fold st in HJ. destruct HJ as (_ & He & Hr & _).
+    assert (EE : J ++ F = J ++ keys_of (skipn n (l_hist st))) by congruence. rewrite EE in Hr. clear G3.
+    repeat split; try assumption.
+    - now apply load_enum.
+    - intro Hall. unfold replayable.
+      destruct (Nat.ltb_spec (length (l_hist st)) n) as [Hlt|Hge].
+      + destruct (replay_phase _ G2 Hlt) as (_ & _ & Hs & _). rewrite Hs. cbn. rewrite app_nil_r. exact HR.
+      + destruct (fresh_phase _ G2 Hge) as (_ & Hk). rewrite <- Hk, <- (notmo_map_keys _ Hall), G1. discriminate.
+  Qed.
 End Replay.
+
+(* ================= from the first start, through any number of crashes ================= *)
+Section Chain.
+  Variable run : Z.
+  Variable prog : list (option Z) -> pinfo.
+  Hypothesis prog_distinct : forall h live nx, sim prog h = Some (h, live, nx) -> NoDup (map fst live).
+
+  Lemma replayable_nil : replayable prog [].
+  Proof. unfold replayable, sim, sim0. cbn. discriminate. Qed.
+
+  (* successive process lifetimes; each one stops (crashes) where its schedule ends *)
+  Fixpoint chain_db (d : db) (ss : list (list ev)) : db :=
+    match ss with [] => d | s :: r => chain_db (l_db (exec run prog d s)) r end.
+  Fixpoint chain_ok (d : db) (ss : list (list ev)) : bool :=
+    match ss with
+    | [] => true
+    | s :: r => notmo (l_hist (exec run prog d s)) && chain_ok (l_db (exec run prog d s)) r
+    end.
+
+  Theorem crash_chain : forall ss d K,
+    rows_enum run d K -> replayable prog K -> chain_ok d ss = true ->
+    exists F, rows_enum run (chain_db d ss) (K ++ F) /\ replayable prog (K ++ F).
+  Proof.
+    induction ss as [|s ss IH]; intros d K Hw Hrp Hok; cbn in *.
+    - exists []. now rewrite app_nil_r.
+    - apply andb_prop in Hok. destruct Hok as [H1 H2].
+      assert (Hpre : notmo (firstn (length K) (l_hist (exec run prog d s))) = true).
+      { rewrite <- (firstn_skipn (length K) (l_hist (exec run prog d s))), notmo_app in H1.
+        now apply andb_prop in H1. }
+      destruct (replay_same_order run prog d K Hrp Hw prog_distinct s Hpre) as (_ & _ & Hr & _ & _ & _ & Hnext).
+      destruct (IH _ _ Hr (Hnext H1) H2) as [F [HF1 HF2]].
+      exists (keys_of (skipn (length K) (l_hist (exec run prog d s))) ++ F).
+      now rewrite app_assoc.
+  Qed.
+
+  (* a first start (empty journal for this run), any number of crashed lifetimes without a timed-out wait, then a
+     recovery under an arbitrary schedule: the recovered loop observes the recorded order *)
+  Theorem recovery_after_crashes : forall ss d s,
+    rows_enum run d [] -> chain_ok d ss = true ->
+    let dc := chain_db d ss in
+    let K := crud_load run dc in
+    let st := exec run prog dc s in
+    notmo (firstn (length K) (l_hist st)) = true ->
+    firstn (length K) (l_hist st) = map Some (firstn (length (l_hist st)) K)
+    /\ crud_load run (l_db st) = K ++ keys_of (skipn (length K) (l_hist st))
+    /\ l_fb st = 0%nat
+    /\ a_purged (l_ad st) = (length K <=? length (l_hist st))%nat.
+  Proof.
+    intros ss d s Hw Hok dc K st Hpre.
+    destruct (crash_chain ss d [] Hw replayable_nil Hok) as [F [HF1 HF2]]. cbn [app] in HF1, HF2.
+    fold dc in HF1. assert (HK : K = F) by (unfold K; now apply load_enum). rewrite <- HK in HF1, HF2.
+    destruct (replay_same_order run prog dc K HF2 HF1 prog_distinct s Hpre) as (A & B & _ & C & D & _).
+    repeat split; assumption.
+  Qed.
+End Chain.
+
+(* ================= the purge at the replay -> fresh transition, on ANY table content ================= *)
+Theorem purge_stale_spec run fid d j E :
+  j_entries j = Some E -> E <> [] -> j_crud j = true ->
+  let d' := j_purge_stale run fid d j in
+  (forall r, In r (d_j d') <-> In r (d_j d) /\ ~ (jr_run r = run /\ Z.of_nat (length E) <= jr_seq r))
+  /\ (forall o, In o (d_o d') <-> In o (d_o d) /\ ~ (or_run o = run /\ fid < or_fid o)).
+Proof.
+  intros He Hne Hc d'. unfold d', j_purge_stale, j_has_entries. rewrite He, Hc.
+  destruct E as [|k E']; [contradiction|]. cbn [andb]. split.
+  - intro r. rewrite truncate_spec. cbn [crud_purge_ops d_j]. reflexivity.
+  - intro o. cbn [crud_truncate_from d_o]. apply purge_ops_spec.
+Qed.
+
+Theorem purge_stale_noop run fid d j :
+  (j_entries j = None \/ j_entries j = Some [] \/ j_crud j = false) -> j_purge_stale run fid d j = d.
+Proof.
+  unfold j_purge_stale, j_has_entries. intros [H|[H|H]]; rewrite H; try reflexivity.
+  destruct (j_entries j) as [[|? ?]|]; reflexivity.
+Qed.
+
+(* wait_for_next_task purges only in a call that finds no expected key, and only in the first such call *)
+Theorem prologue_purge_exact run fid live d a :
+  let j := j_load run d (a_j a) in
+  (j_next_expected j <> None ->
+     fst (fst (prologue run fid live d a)) = d /\ a_purged (snd (fst (prologue run fid live d a))) = a_purged a)
+  /\ (j_next_expected j = None ->
+     a_purged (snd (fst (prologue run fid live d a))) = true
+     /\ fst (fst (prologue run fid live d a)) = if a_purged a then d else j_purge_stale run fid d j).
+Proof.
+  intro j. unfold prologue. fold j. cbn [fst snd a_purged].
+  destruct (j_next_expected j); split; intro H; try congruence; split; reflexivity.
+Qed.
+
+(* ================= timeouts are not journaled: the recovered loop can diverge ================= *)
+Definition w_prog : list (option Z) -> pinfo :=
+  tbl_prog [ ([], {| p_pending := [1] ; p_tmo := true ; p_fid := 0 |}) ;
+             ([-1], {| p_pending := [0] ; p_tmo := false ; p_fid := 0 |}) ].
+(* first process: task 1 ("b:0") runs, the wait times out, the loop then starts task 0 ("a:0" = a delayed retry);
+   a:0 finishes, then b:0.  Journal: [0; 1]. *)
+Definition w_s1 : list ev := [ETmo ; EDone 1 ; EWake 1 ; EDone 0 ; EWake 0].
+(* recovered process: b:0's recorded output is returned at once *)
+Definition w_s2 : list ev := [EDone 0 ; EWake 0].
+
+Theorem timeout_divergence :
+  exists prog s1 s2,
+    let st1 := exec 0 prog db_empty s1 in
+    let K := crud_load 0 (l_db st1) in
+    let st2 := exec 0 prog (l_db st1) s2 in
+    l_hist st1 = [None ; Some 0 ; Some 1] /\ K = [0 ; 1]
+    /\ l_hist st2 = [Some 1] /\ l_fb st2 = 1%nat /\ crud_load 0 (l_db st2) = [0 ; 1 ; 1]
+    /\ firstn (length K) (l_hist st2) <> map Some (firstn (length (l_hist st2)) K).
+Proof.
+  exists w_prog, w_s1, w_s2. vm_compute. repeat split; try reflexivity. discriminate.
+Qed.
+
+(* non-vacuity of the main theorem's hypotheses: a two-step workflow, crash after the first completion *)
+Definition e_prog : list (option Z) -> pinfo :=
+  tbl_prog [ ([], {| p_pending := [0 ; 1] ; p_tmo := false ; p_fid := 3 |}) ;
+             ([1], {| p_pending := [2] ; p_tmo := true ; p_fid := 5 |}) ].
+Lemma e_replayable : replayable e_prog [1].
+Proof. vm_compute. discriminate. Qed.
+Lemma e_rows : rows_enum 0 (l_db (exec 0 e_prog db_empty [EDone 1 ; EWake 1])) [1].
+Proof. vm_compute. reflexivity. Qed.
+Lemma e_recovered :
+  let st := exec 0 e_prog (l_db (exec 0 e_prog db_empty [EDone 1 ; EWake 1])) [EDone 0 ; EDone 1 ; EWake 0 ; EWake 1 ; EDone 2 ; EWake 2] in
+  l_hist st = [Some 1 ; Some 2] /\ crud_load 0 (l_db st) = [1 ; 2] /\ l_fb st = 0%nat.
+Proof. vm_compute. repeat split; reflexivity. Qed.
